@@ -121,6 +121,12 @@ func NewFastModularNetworkSolver(biasNeuronCount, inputNeuronCount, outputNeuron
 	for i := 0; i < len(connections); i++ {
 		crs := connections[i].SourceIndex
 		crt := connections[i].TargetIndex
+		if containsIndex(fmm.reverseAdjacentList[crt], crs) {
+			// A parallel connection (one more link between the same ordered pair of neurons): the neurons are
+			// already adjacent, the link weights add up
+			fmm.adjacentMatrix[crs][crt] += connections[i].Weight
+			continue
+		}
 		// Holds outgoing nodes
 		fmm.adjacentList[crs] = append(fmm.adjacentList[crs], crt)
 		// Holds incoming nodes
@@ -130,6 +136,16 @@ func NewFastModularNetworkSolver(biasNeuronCount, inputNeuronCount, outputNeuron
 	}
 
 	return &fmm
+}
+
+// containsIndex tests whether the list of neuron indexes holds the given one
+func containsIndex(indexes []int, index int) bool {
+	for _, v := range indexes {
+		if v == index {
+			return true
+		}
+	}
+	return false
 }
 
 func (s *FastModularNetworkSolver) ForwardSteps(steps int) (res bool, err error) {
